@@ -8,6 +8,7 @@ from .collmodel import Node, SHAPES
 # Clearing a window is generated only where the per-tick flags are the subject (C04, C05): the engine refuses to RECORD a
 # cleared window ("TSW clear ticks are not representable by the legacy scalar delta" - an explicit error, not a silent loss).
 WINDOW_CLEARS = False
+WHOLE_SET_ASSIGN = False        # C04 / C05 / C20: a set assigned as a whole (copy_value_from), also inside dictionaries and bundles
 CONTAINER_INVALIDATE = False     # C04 only: explicit invalidation of a whole list / bundle / dictionary endpoint (op "I")
 
 
@@ -20,6 +21,11 @@ def gen_op(rng, node, effective, universe=6, allow_invalidate=False):
         return f"={rng.randint(0, 99)}"
     if k == "tss":
         r = rng.random()
+        if WHOLE_SET_ASSIGN and r < 0.3:
+            # whole-value assignment; often the empty set or exactly what the set already holds (no storage operation runs)
+            q = rng.random()
+            new = set() if q < 0.35 else set(node.val) if q < 0.55 else {v for v in range(universe) if rng.random() < 0.4}
+            return ":" + ";".join(str(v) for v in sorted(new))
         if r < 0.5:
             cands = [v for v in range(universe) if v not in node.val] if effective else list(range(universe))
             return f"+{rng.choice(cands)}" if cands else (f"-{rng.choice(sorted(node.val))}" if node.val else None)
